@@ -1218,3 +1218,114 @@ def drop_trailing_commas(els, gaps):
     return e2, g2
 
 
+
+
+# ---------------------------------------------------------------- source tie (Gen/GenFmt.v)
+# translator/gens/fmtkernels.py translates children.rs statement by statement into Gen/GenFmt.v;
+# C19/{ModelSource,ProofsSource,PropertiesSource}.v and C20/PropertiesSource.v prove translated = model.
+TIE_IMPORTS = ("From Coq Require Import List NArith Bool.\n"
+               "From JrV Require Import C19.Model Gen.GenFmt C19.ModelSource.\nImport ListNotations.\n")
+
+
+def source_tie_obligations(run, terrs):
+    """translator.GenFmt is an obligation of C19 and C20 (their files import Gen.GenFmt); a failing
+    plug-in of another property is recorded, not judged here.  Returns the GenFmt translate errors."""
+    kept = []
+    for n, ok, d in run.obligations:
+        if n.startswith("translator.") and n != "translator.GenFmt":
+            run.notes.append(f"{n} (table not used by this property): {d[:160]}")
+        else:
+            kept.append((n, ok, d))
+    run.obligations = kept
+    stale = [m for n, m in terrs if n == "GenFmt"]
+    if stale:
+        run.log("source tie: translator/gens/fmtkernels.py rejected the source: " + stale[0][:300])
+    return stale
+
+
+def tie_item_lists(rng, n):
+    """arrays of numbers with trivia between the elements, dense where the translated decisions are:
+    0/1/2/3 line ends, block comments with and without a line end, line comments before a line end"""
+    cases = []
+    for _ in range(n):
+        ne = rng.randint(1, 3)
+        items, cid = [], 0
+
+        def trivia(first=False):
+            nonlocal cid
+            out = []
+            for _ in range(rng.choice([0, 1, 1, 2, 3])):
+                k = rng.below(7)
+                cid += 1
+                if k == 0:
+                    out.append(("MLc", f"/*k{cid}q*/"))
+                elif k == 1:
+                    out.append(("MLc", f"/*\nk{cid}q\n*/"))
+                elif k == 2:
+                    out.append(("SlashC", f"// k{cid}q"))
+                    out.append(("Ws", rng.choice(["\n", "\n\n", "\n  "])))
+                elif k == 3:
+                    out.append(("HashC", f"# k{cid}q"))
+                    out.append(("Ws", rng.choice(["\n", "\n\n"])))
+                else:
+                    out.append(("Ws", rng.choice([" ", "\n", "\n\n", "\n\n\n", " \n ", "\n \n\n\n"])))
+            merged = []
+            for k, t in out:
+                if merged and merged[-1][0] == "Ws" and k == "Ws":
+                    merged[-1] = ("Ws", merged[-1][1] + t)
+                else:
+                    merged.append((k, t))
+            for k, t in merged:
+                items.append(("t", k, t))
+
+        for e in range(ne):
+            trivia()
+            items.append(("n", 10 + e))
+            trivia()
+            if e + 1 < ne or rng.chance(0.3):
+                items.append(("sep",))
+        trivia()
+        src = "[" + "".join(str(it[1]) if it[0] == "n" else "," if it[0] == "sep" else it[2] for it in items) + "]"
+        cases.append((src, items))
+    return cases
+
+
+def cq_items(items):
+    its = []
+    for it in items:
+        if it[0] == "n":
+            its.append(f"INode {it[1]}")
+        elif it[0] == "sep":
+            its.append("ISep")
+        else:
+            its.append(f"ITriv {it[1]} {cq_str(it[2])}")
+    return "[" + "; ".join(its) + "]"
+
+
+def source_tie_search(run, binary, stale, prop):
+    """an obligation broke: look for an item list on which children.rs AS TRANSLATED and the proved
+    model disagree (both run inside coqc); the failing input is the array source text, shown with
+    what the real formatter prints for it."""
+    if stale:
+        return []
+    cases = tie_item_lists(run.rng.fork("tie-search"), 400 if run.tier == "quick" else 4000)
+    exprs = [f"(src_children_case {cq_items(items)}, children_case {cq_items(items)})" for _, items in cases]
+    res = core.coq_eval(TIE_IMPORTS, exprs)
+    out = []
+    for (src, items), r in zip(cases, res):
+        if isinstance(r, tuple) and r and r[0] == "ERROR":
+            run.log("source tie search: the translated kernel cannot be evaluated: " + str(r[1])[:200])
+            return []
+        a, b = r
+        if repr(a) != repr(b):
+            out.append({"case": {"src": src, "indent": 2},
+                        "what": "children.rs as translated (Gen/GenFmt.v) disagrees with the model the "
+                                f"{prop} theorems are proved about",
+                        "summary": f"{prop} source tie: translated children.rs deviates from the proved model on {src!r}",
+                        "expected": repr(b)[:600], "got": repr(a)[:600]})
+    run.log(f"source tie search: {len(out)}/{len(cases)} item lists on which the translated kernel deviates")
+    out.sort(key=lambda f: len(f["case"]["src"]))
+    if out and binary:
+        o = core.run_harness(binary, "fmt", [{"src": out[0]["case"]["src"], "indents": [2], "tree": False}])[0]
+        out[0]["real_formatter_output"] = (o or {}).get("fmt", {}).get("2")
+    return out
